@@ -289,8 +289,53 @@ def sortKeys (hasChannel : Bool) (x : List CRow) : List Int :=
     ((r :: rs).zip (c :: cs)).map fun p => (p.1.time - tmin) * m1 + p.2
   | _, _ => []
 
-/-- `sort_by_time(x)` on the fast path (`_sort_by_time_and_channel`, stable argsort of one key) -/
-def sortByTime (hasChannel : Bool) (x : List CRow) : List CRow :=
+/-- the fast path of `sort_by_time(x)` (`_sort_by_time_and_channel`, stable argsort of one composite key) -/
+def sortByTimeFast (hasChannel : Bool) (x : List CRow) : List CRow :=
   (((sortKeys hasChannel x).zip x).mergeSort fun p q => decide (p.1 ≤ q.1)).map (·.2)
+
+/-- the guard `(x["time"].max() - x["time"].min()) > (np.iinfo(np.int64).max - 10) / (channel.max() + 1)`, in exact
+integer arithmetic: `span * (maxChannel + 1) > 2^63 - 11`.  The code divides and compares in float64, so it can
+disagree with this only when `span * (maxChannel + 1)` lies within a relative 2⁻⁵¹ of `2^63` (the harness stays
+away from that band); in that band the composite key may also overflow int64, which no model here exhibits. -/
+def sortSpanTooLarge (hasChannel : Bool) (x : List CRow) : Bool :=
+  match x, sortChannels hasChannel x with
+  | r :: rs, c :: cs =>
+    let times := rs.map (·.time)
+    decide ((maxList r.time times - minList r.time times) * (maxList c cs + 1) > 2 ^ 63 - 11)
+  | _, _ => false
+
+/-- `np.sort(x, kind="mergesort", order=("time", "channel"))` resp. `order=("time",)`: numpy compares the listed
+fields first and then breaks ties with the *remaining fields in dtype order* — here the single field `id` that stands
+for all other bytes of the row.  It does not keep the input order of rows that tie on (time, channel). -/
+def lexAllLeB (hasChannel : Bool) (a b : CRow) : Bool :=
+  decide (a.time < b.time ∨ (a.time = b.time ∧
+    (if hasChannel then a.channel < b.channel ∨ (a.channel = b.channel ∧ a.id ≤ b.id) else a.id ≤ b.id)))
+
+/-- insertion into a sorted list, before the first element that is not smaller -/
+def insertBy (le : α → α → Bool) (a : α) : List α → List α
+  | [] => [a]
+  | b :: l => if le a b then a :: b :: l else b :: insertBy le a l
+
+/-- insertion sort (any correct sort gives the same list here: the order is total and antisymmetric on rows) -/
+def isort (le : α → α → Bool) (l : List α) : List α := l.foldr (insertBy le) []
+
+/-- the slow path of `sort_by_time` -/
+def sortByTimeSlow (hasChannel : Bool) (x : List CRow) : List CRow := isort (lexAllLeB hasChannel) x
+
+/-- `sort_by_time(x)` -/
+def sortByTime (hasChannel : Bool) (x : List CRow) : List CRow :=
+  if sortSpanTooLarge hasChannel x then sortByTimeSlow hasChannel x else sortByTimeFast hasChannel x
+
+/-! ### `split_touching_windows` -/
+
+/-- `_split_by_window(r, windows)`: `r[w[0] : w[1]]` for every window (empty when `w[0] ≥ w[1]`) -/
+def splitByWindow (r : List Row) (windows : List (Nat × Nat)) : List (List Row) :=
+  windows.map fun w => (r.take w.2).drop w.1
+
+/-- `split_touching_windows(things, containers, window)` -/
+def splitTouchingWindows (things containers : List Row) (window : Int) : Except Err (List (List Row)) :=
+  match touchingWindows things containers window with
+  | .error e => .error e
+  | .ok ws => .ok (splitByWindow things ws)
 
 end Strax.IntervalAlgos
